@@ -122,4 +122,66 @@ pub fn run(out: &mut Out, thorough: bool, seed: u64, _extra: &[String]) {
             let _ = rep;
         }
     }
+    high_degree(out, &mut r, kmax, thorough);
 }
+
+fn mulm(a: u64, b: u64, q: u64) -> u64 { ((a as u128 * b as u128) % q as u128) as u64 }
+fn powm(mut b: u64, mut e: u64, q: u64) -> u64 { let mut r = 1u64 % q; b %= q; while e > 0 { if e & 1 == 1 { r = mulm(r, b, q); } b = mulm(b, b, q); e >>= 1; } r }
+
+/// EVERY supported degree above the ones compared with the model line by line, up to the maximum 2^17, checked against the definitions
+/// inside the harness: decode . encode = id (zero padding for short inputs), the encoding of v evaluates to v_i at psi^(slotExp i)
+/// (psi = the minimal primitive 2N-th root mod t; slotExp i = 3^i for the first row, -3^(i - N/2) for the second: the documented order),
+/// multiplication by a monomial X^j multiplies slot i by psi^(j slotExp i) (ring homomorphism on a sparse operand), and the row
+/// rotation / row swap automorphisms on sampled steps.
+fn high_degree(out: &mut Out, r: &mut Rng, kmax: usize, thorough: bool) {
+    for k in (kmax + 1)..=17 {
+        let n = 1usize << k; let row = n / 2; let m2 = 2 * n as u64;
+        let tbs: Vec<usize> = if k == 17 || thorough { vec![k + 2, 47] } else { vec![*r.pick(&[k + 2, 30, 47])] };
+        for tb in tbs {
+            let cls = format!("high-k{}t{}b", k, tb);
+            // (the smallest sizes have no prime = 1 mod 2N: take the next size that has one)
+            let t = match (tb..=50).find_map(|b| std::panic::catch_unwind(|| hu::get_primes(m2, b, 1)[0].value()).ok()) { Some(t) => t, None => continue };
+            let q = match std::panic::catch_unwind(|| hu::get_primes(m2, 60, 1)) { Ok(p) => p[0].value(), Err(_) => continue };
+            let s = match make(SchemeType::BFV, n, &[q], t, false, None) { Some(s) => s, None => { out.raw(&format!("!FAIL batch_high setup {} {} :: context for a supported degree refused # {}", k, t, cls)); continue } };
+            let enc = BatchEncoder::new(s.ctx.clone());
+            if !enc.simd_encoding_supported() { out.raw(&format!("!FAIL batch_high setup {} {} :: batching prime not accepted # {}", k, t, cls)); continue; }
+            let mut psi = 0u64;
+            if !hu::try_minimal_primitive_root(m2, &Modulus::new(t), &mut psi) { continue; }
+            let slot_exp = |i: usize| -> u64 { if i < row { powm(3, i as u64, m2) } else { (m2 - powm(3, (i - row) as u64, m2)) % m2 } };
+            let eval = |p: &[u64], x: u64| -> u64 { p.iter().rev().fold(0u64, |acc, &c| (mulm(acc, x, t) + c % t) % t) };
+            let mut ok = true;
+            for kind in [4u64, 2, 7] {
+                let v = slot_vec(r, n, t, kind);
+                let p = enc.encode_new(&v);
+                let mut vp = v.clone(); vp.resize(n, 0);
+                if enc.decode_new(&p) != vp { out.raw(&format!("!FAIL batch_high round_trip {} {} kind={} :: decode(encode(v)) != v (zero padded) # {}", k, t, kind, cls)); ok = false; break; }
+                // evaluation at the slot points: first / last of each row, around the 2^16 boundary of positions, and random slots
+                let mut idx: Vec<usize> = vec![0, 1, row - 1, row, row + 1, n - 1]; for _ in 0..6 { idx.push(r.below(n as u64) as usize); }
+                let pd: Vec<u64> = { let mut d = p.data().clone(); d.resize(n, 0); d };
+                if let Some(&i) = idx.iter().find(|&&i| eval(&pd, powm(psi, slot_exp(i), t)) != vp[i]) {
+                    out.raw(&format!("!FAIL batch_high eval {} {} slot={} :: the encoding does not evaluate to the slot value at psi^(slotExp i) # {}", k, t, i, cls)); ok = false; break; }
+                // X^j * p decodes to slot_i * psi^(j slotExp i)
+                let j = 1 + r.below(n as u64 - 1) as usize;
+                let mut sh = vec![0u64; n]; for (i, &c) in pd.iter().enumerate() { let d = i + j; if d < n { sh[d] = c; } else { sh[d - n] = (t - c) % t; } }
+                let mut ps = Plaintext::new(); ps.resize(n); ps.data_mut().copy_from_slice(&sh);
+                let ds = enc.decode_new(&ps);
+                if let Some(&i) = idx.iter().find(|&&i| ds[i] != mulm(vp[i], powm(psi, (j as u64 * slot_exp(i)) % m2, t), t)) {
+                    out.raw(&format!("!FAIL batch_high monomial {} {} j={} slot={} :: X^j times the encoding does not decode slot-wise # {}", k, t, j, i, cls)); ok = false; break; }
+            }
+            if !ok { continue; }
+            // Galois action on sampled steps
+            let tool = hu::GaloisTool::new(k); let tm = Modulus::new(t);
+            let v = slot_vec(r, n, t, 4); let p = enc.encode_new(&v);
+            let mut steps: Vec<isize> = vec![0, 1, -1, row as isize - 1, -(row as isize) + 1]; for _ in 0..3 { steps.push(r.range(1, 2 * row as u64 - 2) as isize - row as isize + 1); }
+            for st in steps {
+                let g = tool.get_elt_from_step(st);
+                let mut res = vec![0u64; n]; tool.apply(p.data(), g, &tm, &mut res);
+                let mut pr = Plaintext::new(); pr.resize(n); pr.data_mut().copy_from_slice(&res);
+                let want = if st == 0 { swap_rows(&v) } else { rot_rows(&v, st) };
+                if enc.decode_new(&pr) != want { out.raw(&format!("!FAIL batch_high galois_slots {} {} step={} :: automorphism of step does not rotate rows left by step (0 = row swap) # {}", k, t, st, cls)); ok = false; break; }
+            }
+            if ok { out.raw(&format!("!OK batch_high {} {} # {}", k, t, cls)); }
+        }
+    }
+}
+
